@@ -99,10 +99,18 @@ def run_units(obligations, tier):
         "D3 assert!/debug_assert! become Verus assert (a proof obligation)",
         "D4 methods of `impl Trait for T` are emitted as inherent methods of T (trait binding dropped)",
         "D5 requires/ensures/invariant/decreases text is inserted; no executable token is changed",
+        "D6 a ghost proof block calling template lemmas may be inserted at the start of a body (erased code)",
     ]}
     by_unit = {}
     for o in obligations:
         by_unit.setdefault(o.module, []).append(o)
+    # vacuity guard on every run: a false lemma must be rejected, a true one accepted
+    c = canary()
+    info["canary"] = c
+    if not c.get("ok"):
+        for o in obligations:
+            results[o.name] = {"status": "error", "raw": "Verus canary misbehaved: %s" % c, "seconds": 0, "failed_checks": []}
+        return results, info
     for unit, obs in sorted(by_unit.items()):
         tmpl = os.path.join(VERUS_CONTRACTS, unit + ".rs.tmpl")
         gen_path = os.path.join(VERUS_OUT, unit + ".rs")
